@@ -1,6 +1,7 @@
 package govc
 
 import (
+	"go/ast"
 	"context"
 	"fmt"
 	"go/token"
@@ -230,6 +231,77 @@ func (x *Exec) generate() {
 		}
 		x.applyGhostSet(c, penv, out)
 		x.reportSpecErrors(penv, x.TopName, c)
+	}
+	// induct forall(j, lo, hi, body) by hints: a lemma about the return state proved by strong induction on j. Obligation:
+	// for a fresh j in [lo,hi), body(j) follows from the path facts and the hypothesis body(k) at each hint k with lo <= k < j.
+	// Afterwards forall j in [lo,hi). body(j) is assumed at that return point (sound by strong induction: the state is fixed).
+	for _, c := range x.Case.Clauses {
+		if c.Kind != "induct" {
+			continue
+		}
+		call, ok := c.Expr.(*ast.CallExpr)
+		var id *ast.Ident
+		if ok && len(call.Args) == 4 {
+			if f, isId := call.Fun.(*ast.Ident); isId && f.Name == "forall" {
+				id, _ = call.Args[0].(*ast.Ident)
+			}
+		}
+		if id == nil {
+			x.Oblige("spec-error", "induct: forall(j, lo, hi, body) expected: "+c.Text, "", 0, True, False, nil)
+			continue
+		}
+		for _, rp := range x.topRets {
+			x.VC.CurTag = rp.node
+			renv := x.topSpecEnv(rp.st, rp.guard, false)
+			for i, nm := range resultNames(fn.Signature) {
+				if i < len(rp.vals) {
+					renv.vars[nm] = rp.vals[i]
+					if i == 0 {
+						renv.vars["result"] = rp.vals[0]
+					}
+				}
+			}
+			lo, hi := renv.eval(call.Args[1]), renv.eval(call.Args[2])
+			lo, hi = renv.coerce(lo, hi)
+			ls, ok1 := lo.(Scalar)
+			hs, ok2 := hi.(Scalar)
+			if !ok1 || !ok2 || ls.T.S.Kind != "BV" {
+				x.Oblige("spec-error", "induct: bounds must be machine integers, one of them not a constant: "+c.Text, "", 0, True, False, nil)
+				continue
+			}
+			ty := ls.Ty
+			if ty == nil {
+				ty = hs.Ty
+			}
+			signed := ty != nil && isSigned(ty)
+			jv := x.VC.Fresh("ind_"+id.Name, ls.T.S)
+			inRange := func(l, v, h *Term) *Term {
+				return And(BVCmp(pick(signed, "bvsle", "bvule"), l, v), BVCmp(pick(signed, "bvslt", "bvult"), v, h))
+			}
+			sub := renv.clone()
+			sub.vars[id.Name] = Scalar{T: jv, Ty: ty}
+			goal := sub.EvalBool(call.Args[3])
+			hyp := []*Term{rp.guard, inRange(ls.T, jv, hs.T)}
+			for _, h := range c.Frames {
+				kv, _ := sub.coerce(sub.eval(h), Scalar{T: jv, Ty: ty})
+				ks, isS := kv.(Scalar)
+				if !isS {
+					x.Oblige("spec-error", "induct: bad hint in "+c.Text, "", 0, True, False, nil)
+					continue
+				}
+				sub2 := renv.clone()
+				sub2.vars[id.Name] = Scalar{T: ks.T, Ty: ty}
+				hyp = append(hyp, Implies(inRange(ls.T, ks.T, jv), sub2.EvalBool(call.Args[3])))
+			}
+			x.reportSpecErrors(renv, x.TopName, c)
+			x.Oblige("induct", clauseLabel(c), fmt.Sprint(c.Line), fn.Pos(), And(hyp...), goal, c.Props)
+			aenv := x.topSpecEnv(rp.st, rp.guard, true)
+			for k, v := range renv.vars {
+				aenv.vars[k] = v
+			}
+			x.VC.Assume(rp.guard, aenv.EvalBool(c.Expr), "induct")
+		}
+		x.VC.CurTag = nil
 	}
 	// postconditions are proved at every return point separately (states are not merged in the goal)
 	for _, c := range x.Case.Clauses {
